@@ -34,7 +34,7 @@ def main():
             continue
         meta = json.loads((d / 'meta.json').read_text())
         props = a.props.split(',') if a.props else [meta['property']] + meta.get('also_run', [])
-        wt = pathlib.Path('/tmp') / (a.dir[:3] + 'wt_' + d.name)
+        wt = pathlib.Path('/tmp') / ('%swt_%s_%d' % (a.dir[:3], d.name, os.getpid()))
         sh(['git', '-C', '/repo', 'worktree', 'remove', '--force', str(wt)])
         sh(['git', '-C', '/repo', 'worktree', 'add', '--detach', str(wt), 'HEAD'])
         try:
